@@ -110,6 +110,9 @@ def check(ck):
             emitted = []
             for c in calls:
                 a = c[2]
+                if len(a) < 2:
+                    emitted.append((a[0].v if a and isinstance(a[0], K) else repr(a), "<no value>"))
+                    continue
                 emitted.append((a[0].v if isinstance(a[0], K) else repr(a[0]), a[1].v if isinstance(a[1], K) else repr(a[1])))
             n2 += 1
             problems = []
